@@ -17,7 +17,7 @@ from .struct import Violation, brief_cfg, simplify_cfg  # noqa: F401
 from .world import LINK_CLASSES
 
 KNOWN_OPEN = set()
-NAMES = ("foo", "bar", "baz", "name", "x_y")
+NAMES = ("foo", "bar", "baz", "name", "x_y", "__tag__")
 # names that also exist on the link's class: a read through the link finds the class attribute first
 # (excluded from the read oracle, DESIGN.md C20), but a *write* through the link must still land on the target
 CLASS_LEVEL_NAMES = ("separator", "iter_path_reverse")
@@ -61,6 +61,16 @@ class Store(object):
             self.attrs[idx].update(attrs)
             self.attrs[idx]["name"] = op["name"]
 
+    def reaches(self, i, j):
+        """Does following targets from i pass through j?"""
+        seen = 0
+        while self.cls[i] in LINK_CLASSES and seen <= len(self.cls):
+            i = self.target[i]
+            seen += 1
+            if i == j:
+                return True
+        return i == j
+
     def expected(self, i, k):
         return self.attrs[self.holder(i)].get(k, MISSING)
 
@@ -85,6 +95,14 @@ def pre_gen_factory(store):
             if links and rng.random() < 0.08:
                 return {"op": "setattr", "n": rng.choice(links), "k": rng.choice(CLASS_LEVEL_NAMES), "v": "w%d" % step}
             return {"op": "setattr", "n": i, "k": k, "v": v}
+        links_now = [j for j in range(n) if store.cls[j] in LINK_CLASSES]
+        if links_now and r > 0.93:
+            # re-point an existing link (target is the link's own attribute); never onto itself or onto a
+            # link that reaches it
+            j = rng.choice(links_now)
+            cands = [t for t in range(n) if t != j and not store.reaches(t, j)]
+            if cands:
+                return {"op": "retarget", "n": j, "t": rng.choice(cands)}
         if r < cfg["a_rate"] + 0.12 and n < len(cfg["classes"]) + 4:
             # a link constructed with keyword attributes, often to another link
             links = [j for j in range(n) if store.cls[j] in LINK_CLASSES]
@@ -128,8 +146,16 @@ def run(cfg, ops=None, rng=None):
     store = Store(cfg)
 
     def handle(step, world, model, res, op):
-        i, k = op["n"], op["k"]
+        i, k = op["n"], op.get("k")
         node = world.nodes[i]
+        if op["op"] == "retarget":
+            j, t = op["n"], op["t"]
+            if j < len(store.cls) and t < len(store.cls) and store.cls[j] in LINK_CLASSES and t != j and not store.reaches(t, j):
+                world.nodes[j].target = world.nodes[t]
+                store.target[j] = t
+                res.bump("retargets")
+            check_reads(step, world, store, res, op)
+            return
         if op["op"] == "setattr" and k in CLASS_LEVEL_NAMES:
             setattr(node, k, op["v"])
             h = store.holder(i)
